@@ -53,6 +53,7 @@ var Prop = &engine.Prop{
 		{Name: "stress", Quick: 24, Thorough: 1200, Repeat: 20, Fn: stressCase},
 		{Name: "abandon", Quick: 300, Thorough: 12000, Fn: abandonCase},
 		{Name: "stop-backlog", Quick: 300, Thorough: 12000, Fn: stopBacklogCase},
+		{Name: "deep-backlog", Quick: 40, Thorough: 1600, Fn: deepBacklogCase},
 	},
 	Floors: map[string]int64{
 		"coherence_checks_on_cached_keys": 2000,
